@@ -382,9 +382,9 @@ func (ps *PipeSim) killAll(tag int) {
 }
 
 func init() {
-	Register(&PropertyDef{ID: "C02", Strata: []string{"txn", "nontxn", "txn-enum", "nontxn-enum", "txn-select", "txn-txnheavy"}, Run: func(r *Run, s string) *Violation { return runCrashProp(r, "C02", s) }, StepCap: 30000})
+	Register(&PropertyDef{ID: "C02", Strata: []string{"txn", "nontxn", "txn-enum", "nontxn-enum", "txn-select", "txn-txnheavy", "txn-txnheavy-innersel"}, Run: func(r *Run, s string) *Violation { return runCrashProp(r, "C02", s) }, StepCap: 30000})
 	Register(&PropertyDef{ID: "C07", Strata: []string{"txn-idle", "nontxn-idle", "txn", "nontxn", "txn-enum", "nontxn-enum"}, Run: func(r *Run, s string) *Violation { return runCrashProp(r, "C07", s) }, StepCap: 30000})
-	Register(&PropertyDef{ID: "C09", Strata: []string{"txn-txnheavy", "txn-txnheavy-enum", "txn-select"}, Run: func(r *Run, s string) *Violation { return runCrashProp(r, "C09", s) }, StepCap: 30000})
+	Register(&PropertyDef{ID: "C09", Strata: []string{"txn-txnheavy", "txn-txnheavy-enum", "txn-select", "txn-txnheavy-innersel", "txn-txnheavy-innersel-enum"}, Run: func(r *Run, s string) *Violation { return runCrashProp(r, "C09", s) }, StepCap: 30000})
 }
 
 func hasWord(s, w string) bool {
@@ -427,6 +427,9 @@ func runCrashProp(r *Run, prop, stratum string) *Violation {
 	}
 	if hasWord(stratum, "select") {
 		o.SelectHeavy = true
+	}
+	if hasWord(stratum, "innersel") {
+		o.TxnInnerSelect = true
 	}
 	if hasWord(stratum, "idle") {
 		// idle-heavy: long tickers are pointless, short ones fire before the first item
